@@ -319,7 +319,29 @@ def rule_model_molecules(prog, rep):
     phosphate = ([("C1", "C.3"), ("O1", "O.3"), ("P1", "P.3"), ("O2", "O.2"), ("O3", "O.3"), ("O4", "O.3"), ("H1", "H"), ("H2", "H"), ("H3", "H")],
                  [("C1", "O1", "single"), ("O1", "P1", "single"), ("P1", "O2", "double"), ("P1", "O3", "single"), ("P1", "O4", "single"),
                   ("C1", "H1", "single"), ("C1", "H2", "single"), ("C1", "H3", "single")], -1.0)
+    def hydrogens(heavy, bonds, on):
+        hs = [(f"H{k + 1}", "H") for k in range(len(on))]
+        return heavy + hs, bonds + [(c, f"H{k + 1}", "single") for k, c in enumerate(on)]
+    # aromatic nitrogen in a ring and at a ring fusion (three aromatic bonds), fused aromatic carbons, sulfonyl sulfur, nitrile, ammonium, amide
+    pyridine = hydrogens([("N1", "N.ar")] + [(f"C{k}", "C.ar") for k in range(2, 7)],
+                         [("N1", "C2", "aromatic"), ("C2", "C3", "aromatic"), ("C3", "C4", "aromatic"), ("C4", "C5", "aromatic"), ("C5", "C6", "aromatic"), ("C6", "N1", "aromatic")],
+                         ["C2", "C3", "C4", "C5", "C6"]) + (0.0,)
+    indolizine = hydrogens([("C1", "C.ar"), ("C2", "C.ar"), ("C3", "C.ar"), ("N4", "N.ar"), ("C5", "C.ar"), ("C6", "C.ar"), ("C7", "C.ar"), ("C8", "C.ar"), ("C9", "C.ar")],
+                           [("C1", "C2", "aromatic"), ("C2", "C3", "aromatic"), ("C3", "N4", "aromatic"), ("N4", "C9", "aromatic"), ("C9", "C1", "aromatic"),
+                            ("N4", "C5", "aromatic"), ("C5", "C6", "aromatic"), ("C6", "C7", "aromatic"), ("C7", "C8", "aromatic"), ("C8", "C9", "aromatic")],
+                           ["C1", "C2", "C3", "C5", "C6", "C7", "C8"]) + (0.0,)
+    sulfone = hydrogens([("C1", "C.3"), ("S1", "S.o2"), ("O1", "O.2"), ("O2", "O.2"), ("C2", "C.3")],
+                        [("C1", "S1", "single"), ("S1", "O1", "double"), ("S1", "O2", "double"), ("S1", "C2", "single")], ["C1", "C1", "C1", "C2", "C2", "C2"]) + (0.0,)
+    nitrile = hydrogens([("C1", "C.3"), ("C2", "C.1"), ("N1", "N.1")], [("C1", "C2", "single"), ("C2", "N1", "triple")], ["C1", "C1", "C1"]) + (0.0,)
+    ammonium = hydrogens([("C1", "C.3"), ("N1", "N.4")], [("C1", "N1", "single")], ["C1", "C1", "C1", "N1", "N1", "N1"]) + (1.0,)
+    amide = hydrogens([("C1", "C.3"), ("C2", "C.2"), ("O1", "O.2"), ("N1", "N.am")], [("C1", "C2", "single"), ("C2", "O1", "double"), ("C2", "N1", "amide" if False else "single")],
+                      ["C1", "C1", "C1", "N1", "N1"]) + (0.0,)
+    thioether = hydrogens([("C1", "C.3"), ("S1", "S.3"), ("C2", "C.3")], [("C1", "S1", "single"), ("S1", "C2", "single")], ["C1", "C1", "C1", "C2", "C2", "C2"]) + (0.0,)
+    halides = hydrogens([("C1", "C.3"), ("F1", "F"), ("Cl1", "Cl"), ("Br1", "Br")], [("C1", "F1", "single"), ("C1", "Cl1", "single"), ("C1", "Br1", "single")], ["C1"]) + (0.0,)
     cases = [("ethanol", ethanol, None), ("acetate", acetate, None), ("methyl phosphate", phosphate, None),
+             ("pyridine", pyridine, None), ("indolizine (aromatic nitrogen at a ring fusion)", indolizine, None), ("dimethyl sulfone", sulfone, None),
+             ("acetonitrile", nitrile, None), ("methylammonium", ammonium, None), ("acetamide", amide, None), ("dimethyl sulfide", thioether, None),
+             ("bromochlorofluoromethane", halides, None),
              ("methyl phosphate, P=O listed first", phosphate, [2, 0, 1, 3, 4, 5, 6, 7]), ("methyl phosphate, bonds reversed", phosphate, [7, 6, 5, 4, 3, 2, 1, 0])]
     run = None
     for label, (atoms, bonds, total), order in cases:
